@@ -171,7 +171,7 @@ def body(case):
                     warnings.simplefilter("ignore")
                     fn()
             except Exception as e:
-                if type(e).__name__ == "MalformedDataPathSpec":
+                if any(c.__name__ == "MalformedDataPathSpec" for c in type(e).__mro__):
                     pass  # the probed argument is a literal, not a path spec (the library probes the same way)
                 else:
                     out.exc(f"sub-parse-{nparsed and 'after-parse' or 'first'}", e)
